@@ -112,7 +112,7 @@ type interpreter struct {
 	fnCount   map[*ssa.Function]int64
 	initOK    func(pkgPath string) bool
 	uninitRead map[string]bool
-	files     map[string]string // os.ReadFile model
+	files     map[string]value // os.ReadFile model: name -> string or sstr
 	sched     *scheduler
 	vclock    value // virtual clock (int64 ns or term)
 	cfg       *Config
